@@ -203,15 +203,21 @@ func genMetricsPadKind(r *rng.R, tag string, n, pad int, asBytes bool) pmetric.M
 						dp := h.DataPoints().AppendEmpty()
 						dp.Attributes().PutStr("vid", fmt.Sprintf("%s-%d", tag, idx))
 						idx++
-						bounds := [][]float64{{10, 100}, {5, 10, 50, 100}, {1}}[r.Intn(3)]
-						dp.ExplicitBounds().FromRaw(bounds)
-						counts := make([]uint64, len(bounds)+1)
+						bounds := [][]float64{{10, 100}, {5, 10, 50, 100}, {1}, nil, {}}[r.Intn(5)]
 						var total uint64
-						for i := range counts {
-							counts[i] = uint64(r.Intn(9))
-							total += counts[i]
+						if bounds == nil {
+							// a histogram point with count and sum only: no buckets, no bounds (valid OTLP)
+							total = uint64(1 + r.Intn(50))
+						} else {
+							// ({}: one bucket and no bounds)
+							dp.ExplicitBounds().FromRaw(bounds)
+							counts := make([]uint64, len(bounds)+1)
+							for i := range counts {
+								counts[i] = uint64(r.Intn(9))
+								total += counts[i]
+							}
+							dp.BucketCounts().FromRaw(counts)
 						}
-						dp.BucketCounts().FromRaw(counts)
 						dp.SetCount(total)
 						dp.SetSum(float64(r.Intn(1000)) / 8)
 						dp.SetStartTimestamp(pcommon.Timestamp(1700000000000000000 + uint64(r.Intn(1000))))
